@@ -191,6 +191,16 @@ pub fn run(run: &mut Run) {
                     judge(acc, "sugar", format!("styles={:?} explicit_ret={} loop_true={}", styles, explicit_ret, loop_true), text, true);
                 }
             }
+            // sugar and layout together: the same call styles with line breaks inside brackets and
+            // argument lists (a prime call inherits the newline rules of the brackets around it)
+            if combo != 0 {
+                let opts = PrintOpts { break_brackets: true, ..PrintOpts::default() };
+                let text = print_with(&v, opts).text;
+                judge(acc, "sugar+layout", format!("styles={:?} break_brackets", styles), text, true);
+                let opts = PrintOpts { break_brackets: true, layout: 3, full_parens: true, ..PrintOpts::default() };
+                let text = print_with(&v, opts).text;
+                judge(acc, "sugar+layout", format!("styles={:?} break_brackets noise parens", styles), text, true);
+            }
         }
         if bi % 97 == 0 {
             let opts = PrintOpts { full_parens: true, layout: 9, crlf: false, break_brackets: true, ..PrintOpts::default() };
